@@ -158,3 +158,55 @@ Proof.
   split; [apply (C09_inv 0 [] [] [] 0 ex_actions ex_actions_ok)|].
   vm_compute. repeat split; reflexivity.
 Qed.
+
+(* ------------------------------------------------------------------------------------
+   The priority loop.  qok_pos r  :=  r = RPos p  with  PInv HPV p  (Queue/PosProofs.v): the
+   PosPriorityQueue's array is heap-ordered, its sequence numbers are distinct and below the
+   counter, the boost factor is 0 and every entry is positional (class 0, boost 0) or regular
+   (class 1).  The queue model run by the scheduler model (HPV = the transcription of CPython's
+   heapq) meets the ready-queue interface QSpec, so everything above that is stated "for every
+   qok with QSpec qok" holds on the priority loop. *)
+From Asynkit Require Import Queue.PosProofs Queue.Exec Sched.PrioQueueProofs.
+
+Theorem C09_qspec_prio : QSpec qok_pos.
+Proof. exact QSpec_pos. Qed.
+Print Assumptions C09_qspec_prio.
+
+(* Inv09 in every reachable state of the priority loop (boost factor 0), for every program *)
+Theorem C09_inv_prio :
+  forall draws lks cds nev l,
+    let s0 := init_st true 0 draws lks cds nev in
+    actions_ok s0 l -> Inv09 qok_pos (fold_left do_action l s0).
+Proof. exact Inv09_prio. Qed.
+Print Assumptions C09_inv_prio.
+
+(* ... whose ready queue therefore always satisfies the PosPriorityQueue invariant *)
+Theorem C09_prio_queue_inv :
+  forall draws lks cds nev l,
+    let s0 := init_st true 0 draws lks cds nev in
+    actions_ok s0 l -> exists p, ready (fold_left do_action l s0) = RPos p /\ PInv HPV p.
+Proof. exact reachable_PInv. Qed.
+Print Assumptions C09_prio_queue_inv.
+
+(* non-vacuity: the example history above on the priority loop, with PriorityTasks *)
+Definition ex_actions_prio : list action :=
+  [ASpawn SPy ex_waiter; AStep; ASpawn (SPrio 2) (Ret 5); AStep; ASpawn (SPrio 1) (Ret 7);
+   ASpawn SPlain (Ret 8)].
+Definition ex_state_prio : st := fold_left do_action ex_actions_prio (init_st true 0 [] [] [] 0).
+
+Lemma ex_actions_prio_ok : actions_ok (init_st true 0 [] [] [] 0) ex_actions_prio.
+Proof.
+  simpl. repeat split; auto; intros; try exact Logic.I.
+  all: try (destruct rep; simpl; auto; split; auto; intros; exact Logic.I).
+Qed.
+
+Example C09_example_prio :
+  Inv09 qok_pos ex_state_prio /\
+  bo ex_state_prio 0 = Some 1 /\ hcnt ex_state_prio 0 = 0 /\ ccnt ex_state_prio 0 1 = 1 /\
+  tdone ex_state_prio 1 = true /\
+  all_tasks ex_state_prio = [0; 2; 3] /\ runnable_tasks ex_state_prio = [3; 2] /\
+  blocked_tasks ex_state_prio = [0].
+Proof.
+  split; [apply (C09_inv_prio [] [] [] 0 ex_actions_prio ex_actions_prio_ok)|].
+  vm_compute. repeat split; reflexivity.
+Qed.
